@@ -557,7 +557,25 @@ fn gen_call(src: &mut Src) -> Call {
         3 => {
             let (m, e) = gens::gen_packet(src, &o);
             let a = gen_rename_args(src, &m);
-            Call::Rename(e.bytes, a.target.to_wire(), a.source.to_wire(), a.suffix)
+            let (mut t, mut sn) = (a.target.to_wire(), a.source.to_wire());
+            if src.chance(50) {
+                // an argument the renamer must refuse - every time it is asked
+                let which = if src.chance(128) { &mut t } else { &mut sn };
+                match src.below(5) {
+                    0 => which.push(1),
+                    1 => {
+                        if which.len() > 2 {
+                            which[1] = b'.';
+                        }
+                    }
+                    2 => *which = vec![1, b'a', 0xc0, 0x0c],
+                    3 => which.clear(),
+                    _ => {
+                        which.pop();
+                    }
+                }
+            }
+            Call::Rename(e.bytes, t, sn, a.suffix)
         }
         _ => {
             let tc = rrtext::gen_valid(src, &TextOpts::default());
@@ -678,6 +696,13 @@ fn c17_case(data: &[u8], st: &mut Stats) -> PResult {
     let hlen = src.range(4, 24);
     let mut hist: Vec<usize> = (0..hlen).map(|_| src.below(k)).collect();
     // every near-variant directly after its original, and the original again
+    // every call also twice in a row (a refusal must be repeated, a result reproduced)
+    for i in 0..k {
+        if src.chance(100) {
+            hist.extend([i, i]);
+            st.class(&format!("same-call-twice-in-a-row:kind{}", pool[i].kind()));
+        }
+    }
     for &(a, b) in &pairs {
         hist.extend([a, b, a]);
         st.class(&format!("variant-directly-after-original:kind{}", pool[a].kind()));
@@ -741,7 +766,7 @@ pub fn replay_c17(data: &[u8]) -> PResult {
 pub fn check_c17(ctx: &Ctx, known: &KnownFindings) -> Report {
     let mut rep = Report::new("C17");
     let ks = known_sigs(known, "C17");
-    rep.rule = "pools of 3..8 calls over {DNSSector::parse, Compress::uncompress, Compress::compress, Renamer::rename_with_raw_names, RR::from_string} on generated inputs (valid, damaged, raw; about a third of the pool entries are near-variants of an earlier entry: ASCII case of one or all letters, one byte or bit, the suffix flag, target and source swapped, one digit of a record text - and the history runs original, variant, original back to back). Baseline: each call alone on a freshly spawned thread. Then a random history of 4..24 calls on one thread, then 2..6 threads running random plans concurrently behind a barrier: every evaluation must be byte-identical to the baseline (Ok bytes and object fields, or the same error text). ParsedPacket::empty()/gen::query are compared with the id masked and the id is checked to vary. Non-trivial: an evaluation preceded on its thread by a call of the same function on a different input; distinct = hash of the (call, previous call) pair.".into();
+    rep.rule = "pools of 3..8 calls over {DNSSector::parse, Compress::uncompress, Compress::compress, Renamer::rename_with_raw_names, RR::from_string} on generated inputs (valid, damaged, raw; about a third of the pool entries are near-variants of an earlier entry: ASCII case of one or all letters, one byte or bit, the suffix flag, target and source swapped, one digit of a record text - and the history runs original, variant, original back to back; rename arguments are sometimes names the renamer must refuse; every call is also made twice in a row). Baseline: each call alone on a freshly spawned thread. Then a random history of 4..24 calls on one thread, then 2..6 threads running random plans concurrently behind a barrier: every evaluation must be byte-identical to the baseline (Ok bytes and object fields, or the same error text). ParsedPacket::empty()/gen::query are compared with the id masked and the id is checked to vary. Non-trivial: an evaluation preceded on its thread by a call of the same function on a different input; distinct = hash of the (call, previous call) pair.".into();
     rep.assumptions = vec!["the concurrent half is a stress differential: the library shares no memory between threads, so there is no schedule for the harness to control".into()];
     // the one permitted randomness
     let r = catch(|| -> PResult {
@@ -772,6 +797,7 @@ pub fn check_c17(ctx: &Ctx, known: &KnownFindings) -> Report {
     rep.absorb(r);
     let mut req: Vec<String> = (0..5).map(|k| format!("same-function-different-input:kind{}", k)).collect();
     req.extend((0..5).map(|k| format!("variant-directly-after-original:kind{}", k)));
+    req.extend((0..5).map(|k| format!("same-call-twice-in-a-row:kind{}", k)));
     req.push("threads:2".into());
     req.push("threads:6".into());
     rep.required.extend(req);
